@@ -1,11 +1,14 @@
 (* C07 — marker intersection, union and inversion preserve truth.
    Proved (level 1): inversion is complementation — for the atomic markers in both readings, and through
    MultiMarker / MarkerUnion by De Morgan, including the constructors' flattening and de-duplication.
-   Not yet modelled (level 2): intersection / union / cnf / dnf / MultiMarker.of / MarkerUnion.of /
-   _merge_single_markers; their results are judged on the implementation by the oracle (truth tables on the
-   environment grid) and their structure and text are evaluated by this model on every run. *)
+   Proved (level 2, partial): intersection and union through the whole simplifier (Model/MarkerAlg.v: the decorated
+   intersection/union with the recursion guard, cnf, dnf, MultiMarker.of, MarkerUnion.of, intersect_simplify,
+   union_simplify) have the truth table of "and" / "or" on every environment, for every fuel and guard state —
+   relative to the three premises of Proofs/MarkerAlgProofs.v (exact same-variable merge, sound and symmetric key
+   equality), which are not proved; that is what "_partial" stands for.  The model is tied to the implementation by
+   byte-identical text and equal truth tables on every run. *)
 From Coq Require Import List Bool NArith String.
-From PC Require Import Base.Result Model.Generic Model.Marker Proofs.GenericProofs Proofs.MarkerProofs.
+From PC Require Import Base.Result Model.Generic Model.Marker Model.MarkerAlg Proofs.GenericProofs Proofs.MarkerProofs Proofs.MarkerAlgProofs.
 Import ListNotations.
 Open Scope string_scope.
 
@@ -35,3 +38,22 @@ Theorem C07_constructors_sound : forall E,
   forall l, beval E (mk_union_marker l) = beval E (MUnion l) /\ beval E (mk_multi_marker l) = beval E (MMulti l).
 Proof. intros E H l. split; [apply flatten_union_sound | apply flatten_multi_sound]; exact H. Qed.
 Print Assumptions C07_constructors_sound.
+
+(* the full statement: for all environments E, fuel, guard stacks st and markers a b,
+     m_intersect fuel st a b = Ok r -> beval E r = beval E a && beval E b   (and dually for union).
+   Proved relative to the premises key_sound, key_symmetric, merge_sound: *)
+Theorem C07_intersect_union_partial : forall E, key_sound E -> key_symmetric -> merge_sound E ->
+  forall fuel st a b,
+    (forall r, m_intersect fuel st a b = Ok r -> beval E r = beval E a && beval E b) /\
+    (forall r, m_union fuel st a b = Ok r -> beval E r = beval E a || beval E b).
+Proof. exact intersect_union_sound. Qed.
+Print Assumptions C07_intersect_union_partial.
+Theorem C07_nary_partial : forall E, key_sound E -> key_symmetric -> merge_sound E ->
+  forall fuel st args,
+    (forall r, intersection_fn fuel st args = Ok r -> beval E r = forallb (beval E) args) /\
+    (forall r, union_fn fuel st args = Ok r -> beval E r = existsb (beval E) args).
+Proof. exact nary_sound. Qed.
+Print Assumptions C07_nary_partial.
+(* the functions do return results on real input (the statements above are not about an empty set of runs) *)
+Example C07_runs : exists r, intersection_fn FUEL ST0 [MUnion [MAny; MEmpty]; MMulti [MAny]] = Ok r.
+Proof. eexists. vm_compute. reflexivity. Qed.
